@@ -557,6 +557,46 @@ def main():
             locked = dict(init)
             locked[0x88] = bytes([0xFE, 0xFF, 0, 1, 7, 1, 0, 0, 0, 0, 0, 0, 0, 0, 0, 0])
             felica_case(True, locked, [('auth', key, rc), ('wmac', rbytes(16), 0), ('wmac', rbytes(16), 1), ('rmac', [0, 1])], None, 'write-refused')
+    # representation boundaries of every stored field the code does arithmetic on (card key version, write
+    # counter, memory configuration bytes), with protect() with / without password and authenticate after it
+    def le16b(v):
+        return bytes([v & 255, v >> 8])
+
+    bkey = rbytes(16)
+    for ckv in (0, 1, 0xFF, 0x100, 0xFFFE, 0xFFFF):
+        for pw in (rbytes(16), b'\x00' * 16, b'\xff' * 16, b'', None):
+            rc = rbytes(16)
+            init = {0x82: rbytes(16), 0x86: le16b(ckv) + bytes(14)}
+            after = [('auth', pw if pw is not None else b'', rbytes(16)), ('auth', b'', rbytes(16)), ('auth', bkey, rbytes(16))]
+            felica_case(True, init, [('prot', pw, False, rng.choice([0, 1, 13, 14]), rc)] + after, None, 'boundary-ckv')
+            init2 = dict(init)
+            init2[0x87] = sim.key_to_ck_block(bkey)
+            felica_case(True, init2, [('auth', bkey, rbytes(16)), ('prot', pw, rng.random() < 0.5, rng.choice([0, 5, 14]), rc)] + after,
+                        None, 'boundary-ckv')
+    for wc in (0, 0xFF, 0x100, 0xFFFF, 0x10000, 0xFFFFFE, 0xFFFFFF):
+        init = {0x82: rbytes(16), 0x87: sim.key_to_ck_block(bkey), 0x90: wc.to_bytes(3, 'little') + bytes(13)}
+        blk = rng.randrange(0, 14)
+        felica_case(True, init, [('auth', bkey, rbytes(16)), ('wmac', rbytes(16), blk), ('wmac', rbytes(16), blk), ('rmac', [blk, 0x90])],
+                    None, 'boundary-wcnt')
+        blank = dict(init)
+        blank[0x87] = bytes(16)
+        felica_case(True, blank, [('prot', bkey, False, 2, rbytes(16)), ('auth', bkey, rbytes(16))], None, 'boundary-wcnt')
+    for mc01 in (0x0000, 0x0001, 0x3FFF, 0x7FFF, 0xFFFF):
+        for mc2 in (0x00, 0x7F, 0xFF):
+            for mc5 in (0x00, 0x01, 0xFE, 0xFF):
+                for lites in (False, True):
+                    if not lites and mc5 not in (0x00, 0xFF):
+                        continue
+                    mc = le16b(mc01) + bytes([mc2, rng.choice([0, 1]), 7, mc5]) + rng.choice([bytes(10), b'\xff' * 10])
+                    init = {0x82: rbytes(16), 0x87: sim.key_to_ck_block(bkey), 0x88: mc, 0x86: le16b(rng.choice([0, 0xFFFF])) + bytes(14)}
+                    pw = rng.choice([rbytes(16), rbytes(16), b'', None])
+                    pf = rng.choice([0, 1, 13, 14, 15])
+                    tail = [('auth', pw if pw is not None else b'', rbytes(16)), ('auth', bkey, rbytes(16))]
+                    felica_case(lites, init, [('prot', pw, False, pf, rbytes(16))] + tail, None, 'boundary-mc')
+                    felica_case(lites, init, [('auth', bkey, rbytes(16)), ('prot', pw, lites and rng.random() < 0.5, pf, rbytes(16))] + tail,
+                                None, 'boundary-mc')
+    run.flush()
+
     # the card model against the simulated card on damaged commands (no reader involved)
     for _ in range(200 if quick else 3000):
         lites, before, cmds = rng.choice(fuzz_pool)
@@ -627,6 +667,25 @@ def main():
             ntag_case(cfg, {}, [('prot', b'abc', False, 0)], None, 'argument-check', False)
             ntag_case(cfg, init, [('prot', pw, False, 0), ('auth', pw)], None, 'protect-locked')
             ntag_case(cfg, init, [('auth', secret), ('prot', pw, True, 4), ('auth', pw), ('auth', secret)], None, 'protect-change')
+    # NTAG21x boundaries: AUTH0 (0, first user page, the configuration pages, last page, FFh), the ACCESS byte
+    # (PROT, CFGLCK, AUTHLIM at their extremes), PWD / PACK all-zero and all-FF
+    cfgs = [16, 37, 41, 131, 227]
+    n = 0
+    for secret in (bytes(6), b'\xff' * 6, b'\xff\xff\xff\xff\x00\x00', rbytes(6)):
+        for access in (0x00, 0x07, 0x40, 0x7F, 0x80, 0x87, 0xFF):
+            for a0sel in ('0', '3', '4', 'cfg-1', 'cfg', 'cfg+2', 'last', 'ff'):
+                cfg = cfgs[n % 5]
+                n += 1
+                auth0 = {'0': 0, '3': 3, '4': 4, 'cfg-1': cfg - 1, 'cfg': cfg, 'cfg+2': cfg + 2, 'last': cfg + 3, 'ff': 255}[a0sel]
+                init = {cfg: bytes([4, 0, 0, auth0]), cfg + 1: bytes([access, 0, 0, 0]), cfg + 2: secret[0:4], cfg + 3: secret[4:6] + bytes(2)}
+                pw = rng.choice([rbytes(6), bytes(6), b'\xff' * 6, b'', rbytes(8)])
+                other = bytearray(pw[:6] if pw else b'\xff\xff\xff\xff\x00\x00')
+                other[rng.randrange(6)] ^= 1 << rng.randrange(8)
+                pf = rng.choice([0, 3, 4, cfg, cfg + 3, 255, 256, -1])
+                rp = rng.random() < 0.5
+                tail = [('auth', pw), ('auth', bytes(other)), ('auth', secret), ('auth', b'')]
+                ntag_case(cfg, init, [('prot', pw, rp, pf)] + tail, None, 'boundary')
+                ntag_case(cfg, init, [('auth', secret), ('prot', pw, rp, pf)] + tail, None, 'boundary')
     run.flush()
     ck.finish(level='proof',
               rule='DES/3DES-CBC/generate_mac: FIPS known answers and random inputs (pyDes, simulator DES, model). FeliCa Lite and Lite-S: '
@@ -634,7 +693,7 @@ def main():
                    'selections (every single readable block, invalid selections, pairs in the thorough tier), each script repeated with every '
                    'single-bit modification of every response (first base case per product in quick, all in thorough; samples otherwise) and '
                    'random 2-8 bit modifications; NTAG21x: all five products, every single-bit modification of the PWD_AUTH response, every '
-                   'password at Hamming distance 1, protect then authenticate. non-trivial = a run with a modified response, a key mismatch, '
+                   'password at Hamming distance 1, protect then authenticate; representation boundaries of the stored fields the code computes with (FeliCa Lite-S card key version 0/1/FFh/100h/FFFEh/FFFFh, WCNT up to FFFFFFh, MC bytes at their extremes; NTAG21x AUTH0 0/3/4/cfg../last/FFh, ACCESS byte extremes, PWD/PACK all-zero / all-FF) with protect with and without password and authenticate after it. non-trivial = a run with a modified response, a key mismatch, '
                    'a protect/authenticate sequence or a MAC read (everything but pure argument checks); distinct by hash of the case',
               explanation='theorems over all passwords, keys, challenges, card contents and channel behaviours for the model (exact MAC '
                           'soundness; key equality modulo parity; key inequality under the ideal-MAC premise) + differential run of the real '
